@@ -33,6 +33,9 @@ pub mod trackers;
 ///
 pub mod utils;
 
+#[cfg(similari_verif)]
+pub mod verif_hooks;
+
 pub use track::store;
 pub use track::voting;
 
